@@ -26,14 +26,15 @@ RowSels(n) == {IntSel(i) : i \in (-n)..(n - 1)}
               \cup {SliceSel(a, b, s) : a \in {None, 0, 1, 2}, b \in {None, 1, 3, 5}, s \in {1, 2}}
               \cup {MaskSel(m) : m \in [1..n -> BOOLEAN]}
               \cup {IdxSel(ix) : ix \in {<<0>>, <<n - 1, 0>>, <<1, 1, 0>>, <<-1, 0>>}}
-NoCol == [k |-> "none", n |-> "", ns |-> <<>>, a |-> "", b |-> ""]
-NameSel(n) == [k |-> "name", n |-> n, ns |-> <<>>, a |-> "", b |-> ""]
-ListSel(ns) == [k |-> "list", n |-> "", ns |-> ns, a |-> "", b |-> ""]
-NSlice(a, b) == [k |-> "nslice", n |-> "", ns |-> <<>>, a |-> a, b |-> b]
+NoCol == [k |-> "none", n |-> "", ns |-> <<>>, a |-> "", b |-> "", s |-> 1]
+NameSel(n) == [k |-> "name", n |-> n, ns |-> <<>>, a |-> "", b |-> "", s |-> 1]
+ListSel(ns) == [k |-> "list", n |-> "", ns |-> ns, a |-> "", b |-> "", s |-> 1]
+NSlice(a, b, st) == [k |-> "nslice", n |-> "", ns |-> <<>>, a |-> a, b |-> b, s |-> st]
 NameLists(S) == UNION {{s \in [1..m -> S] : \A i, j \in 1..m : i # j => s[i] # s[j]} : m \in 1..Cardinality(S)}
 ColSels(sp) == LET S == Range(SNames(sp)) IN
                {NoCol} \cup {NameSel(n) : n \in S} \cup {ListSel(l) : l \in NameLists(S)}
-               \cup {NSlice(a, b) : a \in S \cup {""}, b \in S \cup {""}}
+               \cup {NSlice(a, b, st) : a \in S \cup {""}, b \in S \cup {""}, st \in {1, 2, -1}}
+Op0 == [a |-> "", t |-> 0, u |-> 0, sels |-> <<>>, cs |-> NoCol, n |-> 0, op |-> "", names |-> <<>>]
 GetOp(t, sels, cs) == [a |-> "get", t |-> t, u |-> 0, sels |-> sels, cs |-> cs, n |-> 0, op |-> "", names |-> <<>>]
 \* ---- exhaustive index universe
 Exh1 == {[tabs |-> <<Tab1(4, 0)>>, ops |-> SetToSeq({GetOp(1, <<rs>>, cs) : cs \in ColSels(Sp1)})] : rs \in RowSels(4)}
@@ -44,7 +45,9 @@ Sels2 == {<<a>> : a \in RowSels(2)} \cup {<<a, b>> : a \in {IntSel(0), IntSel(-1
          \cup {<<EllSel>>}
 \* two batch axes: an advanced row index together with a column selection is outside the modelled universe
 Adv(ss) == \E i \in DOMAIN ss : ss[i].k \in {"mask", "idx"}
-Exh2 == {[tabs |-> <<Tab2>>, ops |-> SetToSeq({GetOp(1, ss, cs) : cs \in {c \in ColSels(Sp2) : c.k = "none" \/ ~Adv(ss)}})] : ss \in Sels2}
+\* (a stepped slice WITHOUT names after an incomplete row part is a row selector of the next batch axis, not a column part)
+Exh2 == {[tabs |-> <<Tab2>>, ops |-> SetToSeq({GetOp(1, ss, cs) : cs \in {c \in ColSels(Sp2) : (c.k = "none" \/ ~Adv(ss))
+                                                   /\ ~(c.k = "nslice" /\ c.a = "" /\ c.b = "" /\ c.s # 1 /\ Len(ss) < 2)}})] : ss \in Sels2}
 \* every ordered selection of distinct variables of a 4-variable table as the column part of an ASSIGNMENT
 Sp4 == <<<<"k", 1>>, <<"x", 2>>, <<"t", 1>>, <<"z", 1>>>>
 SetOp(t, rs, cs, n) == [a |-> "set", t |-> t, u |-> 0, sels |-> <<rs>>, cs |-> cs, n |-> n, op |-> "", names |-> <<>>]
@@ -55,7 +58,12 @@ ExhSet == {[tabs |-> <<TabOf(Sp4, 3, 0)>>,
 \* variables can keep the first and the last column in place while the middle ones move
 ExhGet4 == {[tabs |-> <<TabOf(Sp4, 3, 0)>>, ops |-> SetToSeq({GetOp(1, ss, ListSel(l)) : l \in NameLists(Range(SNames(Sp4)))})] :
               ss \in {<<>>, <<EllSel>>, <<SliceSel(None, None, 1)>>, <<IntSel(-1)>>, <<SliceSel(1, None, 1)>>}}
-ExhScen == Exh1 \cup Exh2 \cup ExhSet \cup ExhGet4
+\* space algebra on every ordered pair of a pool in which the same name occurs with different dimensions and in different positions
+SpPool == {<<<<"x", 1>>>>, <<<<"x", 2>>>>, <<<<"x", 3>>>>, <<<<"x", 2>>, <<"t", 1>>>>, <<<<"t", 1>>, <<"x", 2>>>>, <<<<"x", 1>>, <<"t", 2>>>>,
+           <<<<"t", 1>>>>, <<<<"k", 1>>, <<"x", 3>>, <<"t", 1>>>>}
+ExhSpace == {[tabs |-> <<TabOf(sa, 1, 0), TabOf(sb, 1, 1000)>>,
+              ops |-> <<[Op0 EXCEPT !.a = "space", !.t = 1, !.u = 2], [Op0 EXCEPT !.a = "space", !.t = 2, !.u = 1]>>] : sa \in SpPool, sb \in SpPool}
+ExhScen == Exh1 \cup Exh2 \cup ExhSet \cup ExhGet4 \cup ExhSpace
 
 \* ---- histories
 R(S) == RandomElement(S)
@@ -74,7 +82,6 @@ MaxAbs(t) == MaxAbsSeq(Flatten(t.c))            \* one batch axis
 \* keep every cell inside TLC's 32-bit integers
 Small(t, u, op) == IF op = "mul" THEN MaxAbs(t) < 30000 /\ MaxAbs(u) < 30000 ELSE MaxAbs(t) + MaxAbs(u) < 1000000000
 Emitop(o, res) == hist' = Append(hist, o) /\ heap' = (IF Len(heap) < 9 THEN Append(heap, res) ELSE heap)
-Op0 == [a |-> "", t |-> 0, u |-> 0, sels |-> <<>>, cs |-> NoCol, n |-> 0, op |-> "", names |-> <<>>]
 Next == /\ Len(hist) < Depth
         /\ \E i \in {R(DOMAIN heap)}, j \in {R(DOMAIN heap)}, w \in {R(1..12)} :
            LET t == heap[i]  u == heap[j] IN
